@@ -24,9 +24,18 @@ class ChunkWorker:
 
 
 def run_items(worker: Callable[[Any], Dict[str, Any]], items: List[Any]) -> List[Dict[str, Any]]:
-    chunks = chunked(items, vlib.ncpu() * 8)
+    # spread expensive neighbours (enumeration order groups similar programs) over the workers
+    import random
+    order = list(range(len(items)))
+    random.Random(12345).shuffle(order)
+    shuffled = [items[i] for i in order]
+    chunks = chunked(shuffled, vlib.ncpu() * 8)
     res = vlib.pmap(ChunkWorker(worker), chunks)
-    return [r for ch in res for r in ch]
+    flat = [r for ch in res for r in ch]
+    out: List[Any] = [None] * len(items)
+    for pos, i in enumerate(order):
+        out[i] = flat[pos]
+    return out
 
 
 def add_stats(tot: Dict[str, Any], st: Dict[str, Any]) -> None:
